@@ -18,6 +18,7 @@ Check(r) ==
     [] r.e = "VEC" -> Check_VEC(r)
     [] r.e = "X25ALL" -> Check_X25ALL(r)
     [] r.e = "X25S" -> Check_X25S(r)
+    [] r.e = "TIMED" -> Check_TIMED(r)
     [] r.e = "DEF" -> Check_DEF(r, Defs[r.d])
     [] r.e = "ENC" -> Check_ENC(r, Defs[r.d])
     [] r.e = "DEC" -> Check_DEC(r, Defs[r.d])
